@@ -195,6 +195,10 @@ def evaluate(pid, cases, oc=None, compare_outside_domain=False):
             oc.failing.append(dict(rec, spec='C07 accessor: ro.completed=%r but the document %s a completion record'
                                    % (o['completed_attr'], 'has' if completed(o['ro']) else 'has no'),
                                    impl={'err': o['err'], 'warns': o['warns'], 'ro_text': TJ.to_text(o['ro'])}))
+        if pid == 'C07' and completed(o['ro']) and o.get('reread') is not None and o['reread'] != {'cls': 'RunningOrder', 'completed': True}:
+            oc.failing.append(dict(rec, spec='a completed running order written out and read back must be a RunningOrder that is '
+                                   'still completed; got %r' % (o['reread'],),
+                                   impl={'err': o['err'], 'warns': o['warns'], 'ro_text': TJ.to_text(o['ro'])}))
         if (dom or pid in ('C05', 'C07')) and nontrivial(pid, c, impl_o, ro_t):
             h = stable_hash([ro_text, msg_text])
             if h not in oc.nontrivial:
